@@ -2,29 +2,81 @@
 cascade.low.builders return (P3). Python synthesises the callables, drives the builders and dumps; the verdict is TLC's."""
 from __future__ import annotations
 
-import ast
+import collections
+import dataclasses
 import json
+
+import pydantic
 
 from cascade.low.builders import JobBuilder, TaskBuilder
 
 from .. import p3
-from ..common import CaseTimeout, guarded
+from ..common import CaseTimeout, MachineryError, guarded
 
 LEVEL = "exploration"
 
 
+# ---- structured values that can be bound (spec/Builder.tla!StructVals names them by these constructors)
+@dataclasses.dataclass
+class DC:
+    x: int
+    y: str
+
+
+class PM(pydantic.BaseModel):
+    x: int
+    y: str
+
+
+NT = collections.namedtuple("NT", ["x", "y"])
+VALUE_NS = {"DC": DC, "PM": PM, "NT": NT, "OrderedDict": collections.OrderedDict, "defaultdict": collections.defaultdict,
+            "frozenset": frozenset, "set": set, "int": int, "__builtins__": {}}
+
+
+def canon(x) -> str:
+    """Type-revealing canonical text of a value (an expression over VALUE_NS): two values get the same (type name, text)
+    exactly when they have the same type and are equal, recursively."""
+    if isinstance(x, collections.defaultdict):
+        return f"defaultdict({getattr(x.default_factory, '__name__', None)}, {canon(dict(x))})"
+    if isinstance(x, collections.OrderedDict):
+        return "OrderedDict([" + ", ".join(f"({canon(k)}, {canon(v)})" for k, v in x.items()) + "])"
+    if type(x) is dict:
+        return "{" + ", ".join(f"{canon(k)}: {canon(v)}" for k, v in x.items()) + "}"
+    if type(x) is list:
+        return "[" + ", ".join(canon(v) for v in x) + "]"
+    if type(x) is tuple:
+        return "(" + ", ".join(canon(v) for v in x) + ("," if len(x) == 1 else "") + ")"
+    if type(x) is set:
+        return "{" + ", ".join(sorted(canon(v) for v in x)) + "}" if x else "set()"
+    if type(x) is frozenset:
+        return "frozenset({" + ", ".join(sorted(canon(v) for v in x)) + "})" if x else "frozenset()"
+    if dataclasses.is_dataclass(x) and not isinstance(x, type):
+        return type(x).__name__ + "(" + ", ".join(f"{f.name}={canon(getattr(x, f.name))}" for f in dataclasses.fields(x)) + ")"
+    if isinstance(x, pydantic.BaseModel):
+        return type(x).__name__ + "(" + ", ".join(f"{n}={canon(getattr(x, n))}" for n in type(x).model_fields) + ")"
+    if isinstance(x, tuple) and hasattr(x, "_fields"):
+        return type(x).__name__ + "(" + ", ".join(f"{n}={canon(v)}" for n, v in zip(x._fields, x)) + ")"
+    return repr(x)
+
+
 # ---- transport: descriptors -> real objects
 def val(d: dict):
-    return d["v"] if d["t"] == "str" else ast.literal_eval(d["v"])      # int, None, False, [], 0.0 ...
+    if d["t"] == "str":
+        return d["v"]
+    x = eval(d["v"], dict(VALUE_NS))      # int, None, False, [], 0.0, DC(x=1, y='a'), OrderedDict([...]) ...
+    if canon(x) != d["v"] or type(x).__name__ != d["t"]:
+        raise MachineryError(f"value descriptor {d} is not in canonical form (harness reads it as {type(x).__name__} {canon(x)})")
+    return x
 
 
 def enc(x) -> dict:
-    return {"t": type(x).__name__, "v": str(x)}
+    return {"t": type(x).__name__, "v": x if type(x) is str else canon(x)}
 
 
 def mkfunc(params: list, ret: str, decor: dict | None = None):
     decor = decor or {"po": "", "va": "", "vk": ""}
     parts, star = [], False
+    ns: dict = {"__name__": "c19_synth"}
     if decor["po"]:
         parts += [decor["po"], "/"]
     if decor["va"] and not any(p["kind"] == "ko" for p in params):
@@ -42,12 +94,12 @@ def mkfunc(params: list, ret: str, decor: dict | None = None):
         if p["ann"]:
             s += f": {p['ann']}"
         if p["dflt"]["t"] != "none":
-            s += f" = {val(p['dflt'])!r}"
+            ns[f"_default_{p['name']}"] = val(p["dflt"])       # defaults may be objects: hand them over by name
+            s += f" = _default_{p['name']}"
         parts.append(s)
     if decor["vk"]:
         parts.append("**" + decor["vk"])
     src = f"def f({', '.join(parts)}){' -> ' + ret if ret else ''}:\n    return 0\n"
-    ns: dict = {"__name__": "c19_synth"}
     exec(compile(src, "<c19_synth>", "exec", dont_inherit=True), ns)     # real annotation objects, not strings
     return ns["f"]
 
@@ -156,7 +208,9 @@ def run(ctx):
                 f"two; !Edge1: producer t1 (return annotation absent/int/str/bool/object) x consumer t2 (one parameter annotated "
                 f"absent/int/str/bool/object, or <= {consts['MaxP']} parameters annotated absent/int/str; no defaults) x one edge with source task/output, sink task, sink parameter existing or dangling, keyword or "
                 f"positional; !Bind4: one parameter bound positionally / by keyword to None, 0, '', False, [], 0.0 and re-bound by a "
-                "second with_values call to each of them; !Edge3/!Bind3: callables that additionally have a positional-only parameter, *args (named "
+                "second with_values call to each of them; !Bind5: one un-annotated parameter whose bound value (positional, "
+                "keyword) or default is structured - dataclass / pydantic / namedtuple instance, OrderedDict, defaultdict, "
+                "set, frozenset, tuple, bytes, nested list/dict - compared by type and value; !Edge3/!Bind3: callables that additionally have a positional-only parameter, *args (named "
                 "'args' or like the dangling edge name) and/or **kwargs, with keyword edges named like those; !Edge2: two edges (consumer <= {consts['MaxP2']} parameters); all enumerated by TLC; non-trivial = "
                 "binds a value or has an edge; TLC evaluates Builder!Post on every (case, dumps of the builders' results)",
         "clauses": ["build_raised_on_dangling_sink_task", "build_raised_on_other_dangling_edge", "build_raised_on_unannotated_source",
